@@ -10,7 +10,7 @@ CONSTANTS
   Interps = {"linear", "exp"}
   Routes = {"global", "api", "ctor", "setter"}
   Extras = {"none"}
-  CfgReads = {"both", "k-ctor-drops", "x-ctor-drops", "k-setter-noop", "x-setter-noop"}
+  CfgReads = {"both", "k-ctor-drops", "x-ctor-drops", "k-setter-noop", "x-setter-noop", "k-api-stale"}
 INVARIANT HoldFresh
 INVARIANT HoldTwin
 INVARIANT OnRequestedGrid
@@ -25,5 +25,6 @@ INVARIANT RefuteKDrops
 INVARIANT RefuteXDrops
 INVARIANT RefuteKNoop
 INVARIANT RefuteXNoop
+INVARIANT RefuteKStale
 CONSTRAINT MutantAlphabet
 CHECK_DEADLOCK FALSE
